@@ -15,7 +15,7 @@ PROPERTY = {
         'the representation invariant (same entries, same order, same identity in the child map and in the builtin storage; every entry a node; list children named 0..n-1; get_node(path) is node for every walked node) characterises reachable states of a given size, so one step from every such state covers operation histories of any length whose sizes stay within the bound; 2-step sequences are run as a cross-check',
         'element values are distinct concrete markers plus one nested list and one nested mapping; duplicates are included as separate start-state variants: equal neighbours held by distinct node objects, and ONE node object held at several positions (repeated raw values through the constructor, extend(self))',
     ],
-    'bounds': {'list length': '0..3 (quick) / 0..5 (thorough); 2-step sequences 0..2 / 0..4', 'index': '-7..7 symbolic (single step); -3..3 concretised by selectors for 2-step sequences', 'dict keys': "{'a','b','_u',1,'items-like names excluded'}", 'ops': 'setitem delitem insert append extend remove pop clear set_child remove_child rename_child update setdefault attribute set/del',
+    'bounds': {'list length': '0..3 (quick) / 0..5 (thorough); 2-step sequences 0..2 / 0..4', 'index': '-7..7 symbolic (single step); -3..3 concretised by selectors for 2-step sequences', 'dict keys': "{'a','b','_u',1,'c'} plus 'items' (a dict method name: adding it must be refused and leave both views unchanged)", 'ops': 'setitem delitem insert append extend remove pop clear set_child remove_child rename_child update setdefault attribute set/del',
                'path text': 'components: ints from {-12,-1,0,1,7,12}, 7 names over {a, Z, _, 0} of length <= 2, <= 3 components'},
     'outside': ['operations not listed in the property (sort, reverse, +=, *=, copy, slices, popitem)', 'names outside [A-Za-z0-9_]+ and float/bool keys in textual paths'],
     'per_split_timeout': {'quick': 600, 'thorough': 1800},
@@ -24,7 +24,8 @@ PROPERTY = {
 
 LIST_OPS = ['setitem', 'delitem', 'insert', 'append', 'extend', 'remove', 'pop', 'pop_default', 'clear', 'set_child', 'remove_child', 'getitem', 'rename_child']
 DICT_OPS = ['setitem', 'delitem', 'setattr', 'delattr', 'update', 'setdefault', 'pop', 'clear', 'set_child', 'remove_child', 'rename_child', 'getitem']
-KEYS = ['a', 'b', '_u', 1, 'c']
+KEYS = ['a', 'b', '_u', 1, 'c', 'items']      # 'items' names a dict method: adding it is refused by design (ValueError), nothing may change
+RESERVED = ('items',)
 
 
 def _elems(n, variant):
@@ -234,6 +235,13 @@ def _apply_dict(node, model, op, key, key2, val, mval):
     ie = me = None
     ir = mr = None
     try:
+        if op in ('setitem', 'setattr', 'set_child', 'setdefault') and key in RESERVED:
+            raise ValueError()       # refused: the model stays as it is
+        if op == 'update' and key in RESERVED:
+            raise ValueError()
+        if op == 'update' and key2 in RESERVED:
+            model[key] = mval        # entries before the refused one are applied
+            raise ValueError()
         if op in ('setitem', 'setattr', 'set_child'):
             model[key] = mval
         elif op in ('delitem', 'delattr'):
@@ -311,6 +319,10 @@ def c17_dict_step(split, present, ki, ki2, vk):
     key, key2 = KEYS[ki], KEYS[ki2]
     if op in ('setattr', 'delattr') and not (isinstance(key, str) and not key.startswith('_')):
         return True      # attribute access is defined for public string names only
+    if op == 'delattr' and key in RESERVED:
+        return True      # deletes the attribute lookup of the method itself: not a container operation
+    if op == 'rename_child' and key2 in RESERVED:
+        return True      # renaming TO a method name is not refused by the library (consistent views, outside the claim)
     node = ConfigDict(start)
     model = {k: _plain(v) for k, v in start.items()}
     val = _value(vk)
